@@ -24,7 +24,7 @@ func c08Faults() []fault {
 	}
 	add("CSyntax", true, "a.", "a[", "a[0", "a.b.", "(a", "a)", "a b", "a ||", "|| a", "a[?b", "a[?]", "{a}", "{a:}", "{: a}", "[a,]", "[,a]",
 		"a[0:1:2:3]", "a..b", "a.[", "@@", "a.1", "`{`", "`[1,]`", "'abc", "\"abc", "`1", "a[*", "a[* ]", "!", "a == ", "a & b", "&a", "a # b", "a[1.5]", "a[a]",
-		"let $x = 1 in", "let x = a in x", "let $x a in $x", "$x =", "abs(a", "abs(a b)", "sort_by(a, &)", "a.{b}", "a | | b", "a[::1:]", "{a: b c: d}", "{1: a}")
+		"let", "in", "let in", "in a", "a in b", "$1", "let $1 = a in $1", "let $x = 1 in", "let x = a in x", "let $x a in $x", "$x =", "abs(a", "abs(a b)", "sort_by(a, &)", "a.{b}", "a | | b", "a[::1:]", "{a: b c: d}", "{1: a}")
 	add("CInvalidArity", true, "abs()", "abs(a, b)", "length()", "length(a, b, c)", "contains(a)", "contains(a, b, c)", "join(a)", "sort_by(a)", "sort_by(a, &b, &c)",
 		"map(&a)", "merge()", "not_null()", "zip()", "pad_left(a)", "pad_left(a, b, c, d)", "replace(a, b)", "replace(a, b, c, d, e)", "find_first(a)", "find_first(a, b, c, d, e)",
 		"trim()", "trim(a, b, c)", "split(a)", "split(a, b, c, d)", "to_number()", "type(a, b)", "group_by(a)", "max_by(a)", "min_by(a, &b, c)")
@@ -76,7 +76,9 @@ func genC08(tier, out string, sum *Summary) {
 		} else if want != "" && static {
 			sum.direct("category", expr, doc, "expected a "+want+" error, got "+describe(o))
 		}
-		sh.Add(fmt.Sprintf("BC %d %s %s false %s", id, hx(expr), coqValue(doc), coqObs(o)))
+		if modelled(doc) {
+			sh.Add(fmt.Sprintf("BC %d %s %s false %s", id, hx(expr), coqValue(doc), coqObs(o)))
+		}
 		sid := strconv.Itoa(id)
 		sum.Index[sid] = map[string]any{"expr": expr, "doc": toJSON(doc), "observed": obsJSON(o)}
 		if len(sum.Samples) < 8 && id%97 == 0 {
@@ -139,6 +141,30 @@ func genC08(tier, out string, sum *Summary) {
 		}
 		if !hit {
 			sum.direct("category", f.expr, docs[0], "expected a "+f.cat+" error on at least one of the two fault documents, got none")
+		}
+	}
+	// values whose serialisation fails with an error that itself matches an exported category
+	for _, sn := range sentinels {
+		for _, e := range []string{"to_string(@)", "to_string(v)", "[v][*].to_string(@)", "to_string([v])"} {
+			bad := badMarshal{fmt.Errorf("wrapped: %w", sn.err)}
+			check(e, map[string]any{"v": bad}, "CEvaluationFailed", false)
+			check(e, bad, "", false)
+		}
+	}
+	for i := 0; i < 300; i++ {
+		text := soup()
+		doc := pick(docs)
+		o := check(text, doc, "", false)
+		_, cerr := jmespath.Compile(text)
+		if cerr != nil && (o.Kind != "err" || !sameCats(o.Cats, classify(cerr))) {
+			sum.direct("compile-vs-search", text, doc, fmt.Sprintf("Compile reports %v, Search gives %s", classify(cerr), describe(o)))
+		}
+		if cerr == nil && o.Kind == "err" {
+			for _, c := range o.Cats {
+				if c == "CSyntax" || c == "CInvalidArity" || c == "CUnknownFunction" {
+					sum.direct("compiled-never-static", text, doc, "Compile succeeds but Search reports the static category "+c)
+				}
+			}
 		}
 	}
 	// random expressions: whatever fails must obey the contract
@@ -208,3 +234,7 @@ func mutate(s string) string {
 	b[i] = byte(pick([]int{0, 0x80, 0xff, 0xc3, 'A', '9', ' ', '\n'}))
 	return string(b)
 }
+
+type badMarshal struct{ err error }
+
+func (b badMarshal) MarshalJSON() ([]byte, error) { return nil, b.err }
